@@ -22,6 +22,24 @@ CLAIMED = {
         note="Modelled not verified: CPython weakref death (explicit kill op), fnmatch restricted to literals/*/?; exception classes mapped to an enum.",
         technique="Lean 4 proof (invariant induction over ops and fuel) + model/implementation correspondence",
     ),
+    "C12": dict(
+        text=("Machine-checked Lean 4 theorems about an executable model of Font.glyphOrder / Font.updateGlyphOrder / the font's "
+              "Layer.GlyphAdded, GlyphDeleted and GlyphNameChanged callbacks and the layer operations that trigger them (several "
+              "layers, lib key): the literal index-based port of updateGlyphOrder refines an index-free specification; for every "
+              "well-formed start font (any layers, any start order: absent, empty, partial, complete, superset, with duplicates) "
+              "and every history, creation appends iff absent, deletion removes the name iff no layer still has it (evaluated "
+              "after the deletion), renaming puts the new name at the old name's index / appends when the old name stays / "
+              "keeps an already listed name in place; no name ever gains an occurrence, names not touched keep their relative "
+              "order, the order is what the lib holds (key deleted when empty), complete orders stay complete and exact orders "
+              "stay exact.  The model is tied to the code by a differential run on generated multi-layer histories over new, "
+              "loaded (UFO 3 / UFO 2) and deserialised fonts, plus a clause-by-clause oracle on the implementation's own trace."),
+        design="DESIGN.md section 5 (C12)",
+        note=("Modelled not verified: notification delivery itself (the callbacks are taken to run synchronously for observed "
+              "layers, no user-level holds; delivery is C04's subject); Layer.insertGlyph's hold/release bracket is modelled as "
+              "newGlyph (same name-set effect, one GlyphAdded); lazy glyph loading and pending deletions are represented by the "
+              "layer's key set only; layers are not renamed and the default layer is not deleted."),
+        technique="Lean 4 proof (refinement to an index-free spec, induction over histories) + model/implementation correspondence",
+    ),
 }
 
 NOT_YET = {}
